@@ -79,13 +79,24 @@ def gen(seed, tier):
         payloads.append({"id": "nchild", "flavour": rng.choice([cfl, cfl, "threading"]), "via": "adopt", "steps": [["block"]], "args": rng.choice(ARGS), "kwargs": rng.choice(KWARGS)})
         payloads.append({"id": "nexec", "flavour": ofl, "via": "execute", "steps": [["adopt", "nchild"], ["return", "none"]], "helper": True})
         payloads.append({"id": "ncaller", "flavour": cfl, "via": "queued", "steps": [["sleep", rng.choice([0.0, ad])], ["execute", "nexec"], ["block"]], "helper": True})
+    turn_t = 0.0
+    if rng.random() < 0.1:
+        # turnover: a service that has done its work is let go of and a new one is declared straight away,
+        # between two polls of the accept loop - the population is the same size as before, the newcomer counts
+        for j in range(rng.choice([1, 1, 2, 3])):
+            fa, fb = rng.choice(FL), rng.choice(FL)
+            payloads.append({"id": "to%da" % j, "flavour": fa, "via": "service", "steps": [["sleep", 0.2], ["return", "none"]], "drop_immediately": False})
+            payloads.append({"id": "to%db" % j, "flavour": fb, "via": "service", "steps": rng.choice([[["block"]], [["hb", 0.5, None]]]), "drop_immediately": False})
+            gap = 2 * ad + 0.5 + rng.choice([0.0, ad / 3, ad])
+            turn_t += gap
+            scripts[1] += [["create-service", "to%da" % j], ["sleep", gap], ["drop-ref", "to%da" % j]] + ([["gc"]] if rng.random() < 0.5 else []) + [["create-service", "to%db" % j]]
     if rng.random() < 0.3:
         scripts[1] += [["sleep", ad], ["gc"]]
     if rng.random() < 0.12:
         # a thread that walks the registry of service units (a WeakSet) is descheduled in the middle
         # of it until another thread has got some way through creating a service
         knobs["stalls"] = knobs["stalls"] + [{"func": "__iter__", "nth": rng.randint(2, 8), "dur": 2.0, "until": "__new_service__", "k": rng.randint(2, 6)}]
-    settle = 4 * ad + 3 * ad + 1.5 + sum(st["dur"] for st in knobs["stalls"])  # injected stalls delay starts legitimately
+    settle = 4 * ad + 3 * ad + 1.5 + turn_t + sum(st["dur"] for st in knobs["stalls"])  # injected stalls delay starts legitimately
     if window:
         # submissions inside the launch window: between accept() being called and `running` being set
         scripts[0][0] = ["wait-marker", "accept-call"]
